@@ -27,6 +27,11 @@ T = {
          "Every attribute set of up to 4 (thorough 6) keys drawn from a pool mixing None/string namespaces and equal local names is fed to the real filter in every insertion order, inside every context of neighbouring tokens; the oracle checks multiset equality, sortedness by (namespace or '', local) and permutation invariance. The filter has no state, so this is its whole decision domain up to the bound.",
          "attribute values beyond the two value assignments and names outside the pool are not distinguished; Python's sort is trusted",
          "6/C18"),
+ "C20": ("exploration",
+         "exhaustive enumeration of complete finite domains (every BMP code point x 4 positions, all names <=3 over a 46-character class-boundary set, all comments <=8 over {-,a,space}, pubids, x all 64 flag combinations) against the real InfosetFilter; oracle = expat + round trip + injectivity + reuse-equals-fresh",
+         "The coercion works character by character (two character-class regexes), so visiting every BMP code point in first and non-first position is its complete domain; multi-character interaction (escape patterns, replace order, cache reuse) is covered by all short names over a set that sits on every class boundary. expat, an independent XML parser, decides legality.",
+         "expat 2.5 (XML 1.0 4th-edition names) is the XML parser; astral characters are outside the property's BMP quantifier; names longer than 3-4 characters are assumed to behave character-wise",
+         "6/C20"),
 }
 
 
